@@ -387,6 +387,15 @@ func (ex *Exec) applyContract(st *State, frID int, instr ssa.Instruction, fc *Fu
 		ex.oblige(st, "precondition", fmt.Sprintf("%s:%s @ %s", fc.Key, c.Label, ex.srcLine(instr)), props, g, c.Src)
 		st.Assume(g)
 	}
+	for _, c := range fc.ObjInvs {
+		g, err := env.evalBool(c.E)
+		if err != nil {
+			ex.bindingError(c, err)
+			continue
+		}
+		st.Assume(g)
+		ex.assumed["object invariant of "+fc.Key+" assumed at its call sites (private state; established by the constructor and re-established by every method under contract): "+c.Src] = true
+	}
 	pre := st.Clone()
 	env.old = pre
 	if fc.Logged && len(args) > 0 {
@@ -595,6 +604,14 @@ func (ex *Exec) Verify() {
 			return
 		}
 		for _, c := range fc.Requires {
+			g, err := env.evalBool(c.E)
+			if err != nil {
+				ex.bindingError(c, err)
+				continue
+			}
+			st.Assume(g)
+		}
+		for _, c := range fc.ObjInvs {
 			g, err := env.evalBool(c.E)
 			if err != nil {
 				ex.bindingError(c, err)
